@@ -208,8 +208,19 @@ void rt_arena_preserve_live() {
   g_ar_floor = (g_ar_bump + 4095) & ~(size_t)4095; g_ar_preserved = g_ar_live;
 }
 
+int rt_on_valgrind() {
+#ifdef RUNNING_ON_VALGRIND
+  return RUNNING_ON_VALGRIND ? 1 : 0;
+#else
+  return 0;
+#endif
+}
+// UBSan's vptr check keeps a process-wide 128-entry type cache; whether a check hits or misses decides which of two sibling
+// edges runs. Emptied at the start of every execution, the pattern is a function of the execution alone.
+extern "C" __attribute__((weak)) uintptr_t __ubsan_vptr_type_cache[128];
 void rt_set_env(uint64_t env) {
   rt_env_release();
+  if (__ubsan_vptr_type_cache) memset((void*)__ubsan_vptr_type_cache, 0, 128 * sizeof(uintptr_t));
   g_env = env;
   static const unsigned char fills[8] = {0xA5, 0x5A, 0xFF, 0x01, 0x7F, 0x80, 0xCC, 0x33};
   g_fill = fills[env & 7]; g_free_fill = (unsigned char)~g_fill ^ 0x11;
@@ -365,9 +376,14 @@ extern "C" void __sanitizer_cov_trace_pc_guard_init(uint32_t* start, uint32_t* s
 extern "C" void __sanitizer_cov_pcs_init(const uintptr_t* beg, const uintptr_t* end) {
   if (!sim::g_pcs_beg) { sim::g_pcs_beg = beg; sim::g_pcs_end = end; }
 }
+static FILE* g_trace_f = nullptr; static int g_trace_on = -1;
 extern "C" void __sanitizer_cov_trace_pc_guard(uint32_t* guard) {
   sim::TaskCtx* t = sim::tl_cur; if (!t) t = &sim::g_main_ctx;
   uint32_t g = *guard;
+  if (g_trace_on) {           // debugging aid (SIM_EDGE_TRACE=<file>): every edge with the task that executed it
+    if (g_trace_on < 0) { const char* f = getenv("SIM_EDGE_TRACE"); g_trace_on = f ? 1 : 0; if (f) g_trace_f = fopen(f, "w"); }
+    if (g_trace_f && t->preemptible) fprintf(g_trace_f, "%d %u\n", t->id, g);
+  }
   t->last_guard = g;
   sim::g_hits[g] = 1;
   if (sim::g_counts) ++sim::g_counts[g];
